@@ -100,7 +100,7 @@ def generate(seed, tier, k):
     doc["faults"] = []
     if k % 3 == 2:
         doc["faults"].append({"kind": "solver_inexact", "rel": r.choice([1e-12, 1e-9, 1e-6, 1e-4, 1e-3]), "seed": r.randrange(1000)})
-    doc["c09"] = {"twin": r.random() < 0.5, "twin_seed": r.randrange(1 << 30), "view": r.random() < 0.2}
+    doc["c09"] = {"twin": r.random() < 0.5, "twin_seed": r.randrange(1 << 30), "view": r.random() < 0.3}
     return doc
 
 
@@ -295,15 +295,35 @@ def run(doc, log):
     # material-level curves (sampled only) ---------------------------------------------------------
     if doc["c09"].get("view") and doc["material"]["name"] not in ("NI", "AD:saint_venant_kirchhoff"):
         um = world.build_umat(doc["material"])
-        lam = np.array([0.8, 1.0, 1.25, 1.5])
-        data = um.view(ux=lam, ps=lam, bx=lam).evaluate()
-        ref_ux = [refmodel.homogeneous(doc["material"], "uniaxial", (l,))[1][0] for l in lam]
-        ref_bx = [refmodel.homogeneous(doc["material"], "biaxial", (l, l))[1][0] for l in lam]
-        ref_ps = [refmodel.homogeneous(doc["material"], "biaxial", (l, 1.0))[1][0] for l in lam]
-        for name, got, ref in (("uniaxial", data[0][1], ref_ux), ("planar", data[1][1], ref_ps), ("biaxial", data[2][1], ref_bx)):
-            e = float(np.abs(np.asarray(got) - np.asarray(ref)).max())
+        vr = Streams(doc["c09"]["twin_seed"])["view"]
+        lo = vr.choice([0.8, 0.6, 0.5, 0.35])
+        hi = vr.choice([1.5, 2.0, 3.0])
+        lam = np.unique(np.round(np.concatenate([np.linspace(lo, 1.0, vr.choice([2, 4, 8])), np.linspace(1.0, hi, vr.choice([3, 5, 9]))]), 6))
+        cases = (("uniaxial", "ux", lambda l: ("uniaxial", (l,))), ("planar", "ps", lambda l: ("biaxial", (l, 1.0))), ("biaxial", "bx", lambda l: ("biaxial", (l, l))))
+        for name, key, model in cases:
+            try:
+                ref = []
+                for l in lam:
+                    c, arg = model(float(l))
+                    ref.append(refmodel.homogeneous(doc["material"], c, arg)[1][0])
+            except Discard:
+                log.count("material-curve-skipped:no-analytic-solution")
+                continue
+            kw = {"ux": None, "ps": None, "bx": None}
+            kw[key] = lam
+            try:
+                got = um.view(**kw).evaluate()[0][1]
+            except ValueError:
+                log.count("material-curve-skipped:view-raised")
+                continue
+            got = np.asarray(got, dtype=float)
+            ref = np.asarray(ref)
+            fin = np.isfinite(got)
+            e = float(np.abs(got[fin] - ref[fin]).max()) if fin.any() else 0.0
             if e > 1e-6 * (1 + float(np.abs(ref).max())):
-                raise Violation(PROP, "material-curve", f"umat.view() {name} curve differs from the analytic stress by {e:.3e}", site=f"view.{name}")
+                k_ = int(np.abs(np.where(fin, got - ref, 0)).argmax())
+                raise Violation(PROP, "material-curve", f"umat.view() {name} curve differs from the analytic stress by {e:.3e} (stretch {lam[k_]:.4f}: {got[k_]:.6e} vs {ref[k_]:.6e}; {len(lam)} stretches in [{lo}, {hi}])", site=f"view.{name}")
+            log.count("material-curve-" + name)
         log.count("material-curve-checked")
     sig = "|".join([w.mesh.cell_type, str(doc["mesh"].get("perturb") is not None), str(doc["mesh"].get("perturb_before_convert", True)), doc["field"]["kind"], doc["material"]["name"], case, str(len(vals0)), "inexact" if eng.fired else "", "twin" if doc["c09"].get("twin") else ""])
     return {
